@@ -90,6 +90,8 @@ Section Memo.
   | MP_size_empty : forall K T c r,   (* a table that admits no value stays empty *)
       (forall k v, ~ R T k v) -> static_keys T = [] -> (forall k, static_val T k = None) ->
       memo_prog K (c 0) r -> memo_prog K (Size T c) r
+  | MP_keys : forall K T c r,        (* tuple(d): every key of the snapshot is present, and stays so *)
+      (forall l, memo_prog (map (fun k => (T, k)) l ++ K) (c l) r) -> memo_prog K (Keys T c) r
   | MP_yield : forall K y c r, memo_prog K c r -> memo_prog K (Yield y c) r.
 
   Definition store_ok (s : store) : Prop :=
@@ -103,7 +105,7 @@ Section Memo.
   Lemma memo_weaken : forall K p r, memo_prog K p r -> forall K', incl K K' -> memo_prog K' p r.
   Proof.
     induction 1 as [K r | K T k c r H1 IH1 H2 IH2 | K T k v c r HR HI H IH | K T c r H IH
-                    | K T c r He Hk Hv H IH | K y c r H IH];
+                    | K T c r He Hk Hv H IH | K T c r H IH | K y c r H IH];
       intros K' Hi.
     - constructor.
     - apply MP_rd.
@@ -115,6 +117,7 @@ Section Memo.
       + apply IH. intros x [<-|Hx]; [now left | right; auto].
     - apply MP_size. intro n. now apply IH.
     - apply MP_size_empty; auto.
+    - apply MP_keys. intro l. apply IH. apply incl_app; [apply incl_appl, incl_refl | now apply incl_appr].
     - apply MP_yield. now apply IH.
   Qed.
 
@@ -170,6 +173,31 @@ Section Memo.
     - now apply HK.
   Qed.
 
+  Lemma dyn_keys_present : forall s T k, In k (dyn_keys s T) -> lookup s T k <> None.
+  Proof.
+    induction s as [|[[Te ke] ve] r IH]; intros T k Hin; [contradiction|].
+    unfold dyn_keys in Hin. cbn [filter fst snd] in Hin. cbn [lookup ent_is].
+    destruct (tab_eqb T Te) eqn:E.
+    - cbn [map fst snd] in Hin. destruct Hin as [<-|Hin].
+      + rewrite Nat.eqb_refl. cbn. discriminate.
+      + destruct (Nat.eqb k ke); cbn; [discriminate | now apply IH].
+    - cbn. now apply IH.
+  Qed.
+
+  Lemma keys_present : forall s T k, In k (keys s T) -> get s T k <> None.
+  Proof.
+    intros s T k Hin. unfold keys in Hin. apply in_app_or in Hin as [Hin|Hin]; unfold get.
+    - destruct T; cbn [static_keys] in Hin; try contradiction.
+      apply in_seq in Hin. cbn [static_val]. destruct (Nat.ltb_spec k NBASE); [discriminate | lia].
+    - destruct (static_val T k); [discriminate | now apply dyn_keys_present].
+  Qed.
+
+  Lemma known_keys : forall s K T, known s K -> known s (map (fun k => (T, k)) (keys s T) ++ K).
+  Proof.
+    intros s K T HK T' k' Hin. apply in_app_or in Hin as [Hin|Hin]; [|now apply HK].
+    apply in_map_iff in Hin as (k & E & Hk). inversion E; subst. now apply keys_present.
+  Qed.
+
   (* one micro-step of a memo-shaped thread *)
   Lemma step_ok : forall s t r,
     store_ok s -> thread_ok s t r ->
@@ -177,7 +205,7 @@ Section Memo.
     store_ok s' /\ thread_ok s' t' r /\ (forall K, known s K -> known s' K).
   Proof.
     intros s [p it] r Hs (K & Hm & HK). cbn [th_prog] in Hm.
-    destruct Hm as [K r | K T k c r H1 H2 | K T k v c r HR HI H | K T c r H | K T c r He Hk Hv H | K y c r H];
+    destruct Hm as [K r | K T k c r H1 H2 | K T k v c r HR HI H | K T c r H | K T c r He Hk Hv H | K T c r H | K y c r H];
       cbn [step th_prog th_it].
     - split; [assumption|]. split; [|auto]. exists K. split; [constructor | assumption].
     - split; [assumption|]. split; [|auto]. destruct (get s T k) as [v|] eqn:Eg.
@@ -191,6 +219,8 @@ Section Memo.
       intros T' k' [E|Hin]; [inversion E; subst; apply get_update_same | exact (known_update s K T k v HK T' k' Hin)].
     - split; [assumption|]. split; [|auto]. exists K. split; [apply H | assumption].
     - split; [assumption|]. split; [|auto]. exists K. split; [|assumption]. now rewrite size_empty.
+    - split; [assumption|]. split; [|auto]. exists (map (fun k => (T, k)) (keys s T) ++ K).
+      split; [apply H | now apply known_keys].
     - split; [assumption|]. split; [|auto]. exists K. split; assumption.
   Qed.
 
@@ -266,7 +296,7 @@ Section Memo.
       exists n s' it', solo n s (mkT p it) = (s', mkT (Ret r) it') /\ store_ok s'.
   Proof.
     induction 1 as [K r | K T k c r H1 IH1 H2 IH2 | K T k v c r HR HI H IH | K T c r H IH
-                    | K T c r He Hk Hv H IH | K y c r H IH];
+                    | K T c r He Hk Hv H IH | K T c r H IH | K y c r H IH];
       intros s it Hs HK.
     - exists 0, s, it. now split.
     - destruct (get s T k) as [v|] eqn:Eg.
@@ -284,6 +314,8 @@ Section Memo.
       exists (Datatypes.S n), s', it'. now cbn [solo step th_prog th_it].
     - destruct (IH s it Hs HK) as (n & s' & it' & Hn & Hs').
       exists (Datatypes.S n), s', it'. cbn [solo step th_prog th_it]. now rewrite size_empty.
+    - destruct (IH (keys s T) s it Hs (known_keys s K T HK)) as (n & s' & it' & Hn & Hs').
+      exists (Datatypes.S n), s', it'. now cbn [solo step th_prog th_it].
     - destruct (IH s it Hs HK) as (n & s' & it' & Hn & Hs').
       exists (Datatypes.S n), s', it'. now cbn [solo step th_prog th_it].
   Qed.
@@ -293,7 +325,7 @@ Section Memo.
     forall k r', (forall K', incl K K' -> memo_prog K' (k r) r') -> memo_prog K (bind p k) r'.
   Proof.
     induction 1 as [K r | K T x c r H1 IH1 H2 IH2 | K T x v c r HR HI H IH | K T c r H IH
-                    | K T c r He Hk Hv H IH | K y c r H IH];
+                    | K T c r He Hk Hv H IH | K T c r H IH | K y c r H IH];
       intros k r' Hk'; cbn [bind].
     - apply Hk'. apply incl_refl.
     - apply MP_rd.
@@ -303,6 +335,7 @@ Section Memo.
     - apply MP_wr; auto. apply IH. intros K' Hi. apply Hk'. eapply incl_tran; [|exact Hi]. now apply incl_tl, incl_refl.
     - apply MP_size. intro n. now apply IH.
     - apply MP_size_empty; auto.
+    - apply MP_keys. intro l. apply IH. intros K' Hi. apply Hk'. eapply incl_tran; [|exact Hi]. now apply incl_appr, incl_refl.
     - apply MP_yield. now apply IH.
   Qed.
 End Memo.
